@@ -42,7 +42,7 @@ Program(k) ==
         c |-> [j \in 1 .. NV |-> v(NR * NV + NR + j)]]
 
 Dot(u, w) == SumTo([j \in 1 .. Len(u) |-> u[j] * w[j]], Len(u))
-RowsOf(P, S) == [i \in 1 .. Len(S) |-> P.R[S[i]]]
+RowsOf(P, S) == LET row(i) == P.R[S[i]] IN Tuple(row, Len(S))
 
 (*************************** general-form semantics ****************************)
 \* the polyhedron contains no line
@@ -57,7 +57,8 @@ Vertex(P, S) ==
     LET MS == RowsOf(P, S)
         d == Det(MS)
         rhs == [i \in 1 .. NV |-> P.q[S[i]]]
-        xn == [j \in 1 .. NV |-> Det(ReplaceCol(MS, j, rhs))]
+        num(j) == Det(ReplaceCol(MS, j, rhs))
+        xn == Tuple(num, NV)
         \* sign-normalised: s * xn / |d|
         s == Sign(d)
     IN [d |-> d, xn |-> xn,
